@@ -131,7 +131,25 @@ def witness(o):
     return None
 
 
+def apply_replay(ctx):
+    """--replay FILE: the generators are deterministic in (seed, tier), so re-running the harness with the recorded
+    seed and tier reproduces the recorded observation (the replay file also holds it verbatim)."""
+    if not ctx.replay:
+        return
+    import json
+    try:
+        r = json.load(open(ctx.replay))
+    except (OSError, ValueError) as ex:
+        ctx.note("cannot read replay file: %r" % ex)
+        return
+    ctx.seed = int(r.get("seed", ctx.seed))
+    if r.get("tier") == "thorough":
+        ctx.tier, ctx.thorough = "thorough", True
+    ctx.note("replaying seed=%d tier=%s (%s)" % (ctx.seed, ctx.tier, r.get("key")))
+
+
 def run(ctx):
+    apply_replay(ctx)
     obs = []
     from concurrent.futures import ThreadPoolExecutor
     with ThreadPoolExecutor(max_workers=4) as ex:
